@@ -346,7 +346,7 @@ def r5(run, db):
         # ... and the test is made after *every* message: the last outstanding job can also end without a Finished (its
         # worker fails and is replaced, a queued job expires on a timer tick), so any message can be the one after which the
         # factory is drained
-        oks = [site for site, st_ in f.aggregates(adt="std::result::Result", variant="Ok") if st_["lhs"][0] == 0 and not st_["lhs"][1]]
+        oks = ok_return_sites(f)
         good = bool(idc) and bool(oks) and f.must_pass(f.entry(), [i.site for i in idc], to_sites=oks)
         run.check(good, "handle|drained-tested-after-every-message", "every normal path through the factory's handle() evaluates is_drained()",
                   "is_drained() is evaluated only for some messages: when the last outstanding job ends without such a message (worker failure, TTL expiry) the factory stays Draining forever -- it refuses all jobs, never stops, on_factory_stopped never runs", f.where())
